@@ -2,6 +2,7 @@
 # Under the terms of Contract DE-NA0003525 with NTESS, the U.S. Government retains
 # certain rights in this software.
 import enum
+from numbers import Integral, Real
 
 from jaqalpaq.error import JaqalError
 
@@ -158,28 +159,26 @@ class Parameter(AnnotatedValue):
                     f"Type-checking failed: parameter {self.name}={value} does not have type {self.kind}."
                 )
         elif self.kind == ParamType.FLOAT:
-            if isinstance(value, float):
+            if isinstance(value, Integral):
+                self._check_float_range(value, value)
+            elif isinstance(value, Real):
                 pass
-            elif isinstance(value, int):
-                try:
-                    float(value)
-                except OverflowError:
-                    raise JaqalError(
-                        f"Type-checking failed: parameter {self.name}={value} is too large for type {self.kind}."
-                    ) from None
             elif isinstance(value, AnnotatedValue) and value.kind in (
                 ParamType.INT,
                 ParamType.FLOAT,
                 ParamType.NONE,
             ):
-                pass
+                # A constant is checked like the number it stands for
+                number = _constant_value(value)
+                if isinstance(number, Integral):
+                    self._check_float_range(number, value)
             else:
                 raise JaqalError(
                     f"Type-checking failed: parameter {self.name}={value} does not have type {self.kind}."
                 )
         elif self.kind == ParamType.INT:
-            if (isinstance(value, float) and value.is_integer()) or isinstance(
-                value, int
+            if isinstance(value, Integral) or (
+                isinstance(value, Real) and value.is_integer()
             ):
                 pass
             elif isinstance(value, AnnotatedValue) and value.kind in (
@@ -190,7 +189,7 @@ class Parameter(AnnotatedValue):
             elif (
                 isinstance(value, AnnotatedValue)
                 and value.kind == ParamType.FLOAT
-                and isinstance(_constant_value(value), float)
+                and isinstance(_constant_value(value), Real)
                 and _constant_value(value).is_integer()
             ):
                 pass
@@ -207,6 +206,15 @@ class Parameter(AnnotatedValue):
             raise JaqalError(
                 f"Type-checking failed: unknown parameter type {self.kind}."
             )
+
+    def _check_float_range(self, number, value):
+        """Raise a JaqalError if an integer is too large to be a float."""
+        try:
+            float(number)
+        except OverflowError:
+            raise JaqalError(
+                f"Type-checking failed: parameter {self.name}={value} is too large for type {self.kind}."
+            ) from None
 
     def __getitem__(self, key):
         # Only makes sense for register parameters, but we'll let Register and NamedQubit do the typechecking.
